@@ -437,18 +437,23 @@ pub const TOKENS: &[&str] = &[
     "99999999999999999999", "9223372036854775807", "65535", "255",
 ];
 
-/// Generator 3: a valid sentence with one or two token-level mutations.
-fn near_valid(ch: &mut Choices, case: &mut Case) -> Result<(), String> {
-    let mode = mode_for(ch, case);
-    let base_year = 2020;
-    let cfg = Cfg { max_rules: 3, base_year, hostile: ch.chance(30), ..Cfg::default() };
-    let (_, text) = gen_expr(ch, &cfg);
+/// One or two token-level mutations of a sentence (character deleted, grammar token inserted,
+/// slice duplicated, slice replaced by a token, digit changed, space inserted at a boundary
+/// between digits / letters / punctuation).
+pub fn mutate(text: &str, ch: &mut Choices) -> String {
     let mut chars: Vec<char> = text.chars().collect();
     let n_mut = 1 + ch.weighted(&[70, 30]);
     for _ in 0..n_mut {
         let len = chars.len().max(1) as u32;
         let pos = ch.draw(len.min(65536)) as usize;
-        match ch.draw(5) {
+        match ch.draw(6) {
+            // a space at a boundary between two kinds of characters (digits / letters / punctuation)
+            5 => {
+                let class = |c: char| if c.is_ascii_digit() { 0 } else if c.is_alphabetic() { 1 } else if c == ' ' { 2 } else { 3 };
+                if let Some(i) = (pos.max(1)..chars.len()).find(|i| class(chars[*i - 1]) != class(chars[*i]) && chars[*i] != ' ' && chars[*i - 1] != ' ') {
+                    chars.insert(i, ' ');
+                }
+            }
             0 => {
                 if !chars.is_empty() {
                     chars.remove(pos.min(chars.len() - 1));
@@ -479,7 +484,16 @@ fn near_valid(ch: &mut Choices, case: &mut Case) -> Result<(), String> {
             }
         }
     }
-    let mutated: String = chars.into_iter().collect();
+    chars.into_iter().collect()
+}
+
+/// Generator 3: a valid sentence with one or two token-level mutations.
+fn near_valid(ch: &mut Choices, case: &mut Case) -> Result<(), String> {
+    let mode = mode_for(ch, case);
+    let base_year = 2020;
+    let cfg = Cfg { max_rules: 3, base_year, hostile: ch.chance(30), ..Cfg::default() };
+    let (_, text) = gen_expr(ch, &cfg);
+    let mutated = mutate(&text, ch);
     case.key = mutated.clone();
     let holidays = gen_holidays(ch, base_year).holidays;
     let tally = exercise(mode, &mutated, ch, holidays, case)?;
